@@ -157,6 +157,9 @@ def replay_roundtrip(n, pad, model):
 def add(run, tier):
     from contracts.encoder_c import EncodeTask, IsFastTask
     run.add(EncodeTask('C03'), IsFastTask())
+    # whether a message goes out as a fast packet depends on its PGN only, never on how long its payload happens to be
+    for n in (0, 1, 3, 6, 7, 8, 20):
+        run.add(EncodeTask('C03', payload_len=n))
     ls = list(range(0, 224))
     for pad in (False, True):
         for ch in chunks(ls, 16):
